@@ -58,6 +58,10 @@ class _ExitTr:
     def __init__(self, fn: ast.FunctionDef, time_aliases: frozenset[str] = frozenset({'time'})) -> None:
         self.time_aliases = time_aliases
         self.loop_depth = 0
+        # `X.closed` of a file handle: not a value of the model.  The entry prologue is translated twice, once for a
+        # handle that is still open ('VFalse': the temp file of an attempt that was never exited) and once for a handle
+        # that was closed behind the writer's back ('VTrue'); None (in __exit__): fail closed
+        self.closed_value: str | None = None
         params = [a.arg for a in fn.args.args]
         if len(params) != 4 or fn.args.vararg or fn.args.kwarg or fn.args.kwonlyargs:
             raise TranslateError('AtomicWriter.__exit__: expected (self, exc_type, exc_value, tback)')
@@ -99,6 +103,10 @@ class _ExitTr:
         k = _key(node)
         if k is not None:
             return f'(EV {self.slot(k, False, node)})'
+        if isinstance(node, ast.Attribute) and node.attr == 'closed' and _key(node.value) is not None \
+                and self.closed_value is not None:
+            self.expr(node.value)
+            return f'(EC {self.closed_value})'
         # the path of an open file: X.name, Path(X.name), PurePath(X.name), os.fspath(X.name)
         inner = node
         if isinstance(node, ast.Call) and len(node.args) == 1 and not node.keywords and (
@@ -164,6 +172,13 @@ class _ExitTr:
         if f.attr == 'close':
             bind([])
             return f'(SCall MClose {recv} [] false)'
+        if f.attr in ('truncate', 'seek', 'flush') and self.closed_value is not None:
+            # an operation on the handle that changes no name in the directory (entry prologue only): AttributeError on
+            # None, otherwise nothing the model sees.  Whether the handle is then given up is judged on the tree
+            # (reentry_ok): a prologue that clears the old file and keeps it returns before any temp file is created
+            if call.keywords or not all(isinstance(a, ast.Constant) for a in call.args):
+                raise bad
+            return f'(SIf (TIs {recv} (EC VNone)) (SRaise false) SSkip)'
         if f.attr == 'unlink':
             mo, = bind(['missing_ok'], optional=1)
             if mo is not None and not (isinstance(mo, ast.Constant) and isinstance(mo.value, bool)):
@@ -340,7 +355,7 @@ def _entry_prologue(mk: ast.FunctionDef) -> list[ast.stmt]:
 
 
 def _exit_prog_attrs(fn: ast.FunctionDef, time_aliases: frozenset[str] = frozenset({'time'}),
-                     prologue: list[ast.stmt] | None = None) -> tuple[str, dict, dict[str, int], str]:
+                     prologue: list[ast.stmt] | None = None) -> tuple[str, dict, dict[str, int], str, str]:
     tr = _ExitTr(fn, time_aliases)
     # the attributes the entry prologue mentions get slots too (they are part of the object's state)
     pro_fn = ast.Module(body=prologue or [], type_ignores=[])
@@ -354,8 +369,13 @@ def _exit_prog_attrs(fn: ast.FunctionDef, time_aliases: frozenset[str] = frozens
     tr.where = 'AtomicWriter.make_tempfile (before the temp-name loop)'
     # the parameters and locals of __exit__ do not exist here
     tr.slots = dict(tr.attr_slots)
+    next0 = tr.next
+    tr.closed_value = 'VFalse'
     pro = tr.block(prologue or [])
-    return prog, {str(k): v for k, v in sorted(tr.names.items())}, dict(tr.attr_slots), pro
+    tr.slots, tr.next = dict(tr.attr_slots), next0
+    tr.closed_value = 'VTrue'
+    pro_closed = tr.block(prologue or [])
+    return prog, {str(k): v for k, v in sorted(tr.names.items())}, dict(tr.attr_slots), pro, pro_closed
 
 
 # ------------------------------------------------------------------------------------------- normalisation: helpers
@@ -926,9 +946,17 @@ def _object_facts(cls: ast.ClassDef, fns: dict[str, ast.FunctionDef], attr_slots
         return {k for n in ast.walk(node) if isinstance(n, ast.Attribute) and isinstance(n.ctx, (ast.Store, ast.Del))
                 for k in [_key(n)] if k}
 
+    # a `return` inside the entry prologue of make_tempfile does not end the scan: that the prologue falls through (or
+    # raises) in EVERY attribute state is what the obligations entry_inert (no handle) and reentry_ok (a handle is
+    # held) say about the generated prologue program; a prologue that returns early flips those, by name
+    try:
+        pro_ids = {id(st) for st in _entry_prologue(mk)}
+    except TranslateError:
+        pro_ids = set()
+
     def scan(body: list[ast.stmt], in_enter: bool) -> None:
         for st in body:
-            if st is not body[-1] and any(isinstance(x, ast.Return) for x in ast.walk(st)):
+            if st is not body[-1] and id(st) not in pro_ids and any(isinstance(x, ast.Return) for x in ast.walk(st)):
                 break      # an early return: what follows is not executed on every entry
             if in_enter and isinstance(st, ast.Expr) and isinstance(st.value, ast.Call) \
                     and _key(st.value.func) == 'self.make_tempfile' and not st.value.args and not st.value.keywords:
@@ -1168,7 +1196,7 @@ def translate() -> tuple[str, dict]:
     # names the module `time` is imported under (time.sleep between two attempts of a retry loop is no operation)
     time_aliases = frozenset(a.asname or a.name for n in tree.body if isinstance(n, ast.Import) for a in n.names
                              if a.name == 'time')
-    prog, slot_names, attr_slots, entry_prog = _exit_prog_attrs(fns['__exit__'], time_aliases,
+    prog, slot_names, attr_slots, entry_prog, entry_prog_closed = _exit_prog_attrs(fns['__exit__'], time_aliases,
                                                                 _entry_prologue(fns['make_tempfile']))
     tf = _tempfile_facts(fns['make_tempfile'])
     # __enter__ must create the temp file and hand out the temp handle
@@ -1198,6 +1226,8 @@ def translate() -> tuple[str, dict]:
         f'     o_const := [{"; ".join(map(str, obj["const"]))}] |}}.',
         '(* what make_tempfile does before it creates the folder and enters the temp-name loop *)',
         f'Definition aw_entry_prog : xstmt :=\n  {entry_prog}.',
+        '(* the same statements when `<handle>.closed` is true (the handle was closed behind the writer\'s back) *)',
+        f'Definition aw_entry_prog_closed : xstmt :=\n  {entry_prog_closed}.',
         '(* the exit protocol of the first use of a fresh object *)',
         'Definition aw_proto : xproto := obj_proto aw_obj.',
         '(* named subclasses of OSError a handler may name (KSub i / run class RSub i): ' + ', '.join(
@@ -1228,7 +1258,7 @@ def translate() -> tuple[str, dict]:
         f'Definition bsp_save_handle_is_bytes : bool := {b(bsp["bytes_mode"])}.',
         '',
     ]
-    side = dict(exit_prog=prog, entry_prog=entry_prog, exit_slots=slot_names, tempfile=tf, bsp={k: v for k, v in bsp.items()},
+    side = dict(exit_prog=prog, entry_prog=entry_prog, entry_prog_closed=entry_prog_closed, exit_slots=slot_names, tempfile=tf, bsp={k: v for k, v in bsp.items()},
                 digests=raw_digests, writes_ok=writes_ok, obj=obj, subclasses=list(SUBCLASSES))
     return '\n'.join(lines), side
 
